@@ -526,6 +526,23 @@ func c19GraphTieCase(c *Ctx, cs *c19Case, plain *syntax.Ast, base *c19Compiled) 
 				Impl: enc, Model: rep, Broken: "correspondence C19 (program encoding)"})
 		}
 	}
+	// the fuel of the graph model is adequate for this program (hypothesis of graph_fuel_adequate),
+	// and, without disabled modifiers, deepGraphD is deepGraph (hypothesis of deepGraphD_embeds_deepGraph)
+	if c.Drv != nil && !c19HasMapCall(base.Ast) {
+		rep := c.Drv.Ask("C19.gfuel", c19Encode(plain), c19EncodeTypes(base.Ast))
+		f := map[string]string{}
+		for _, kv := range strings.Fields(rep) {
+			if j := strings.IndexByte(kv, '='); j > 0 {
+				f[kv[:j]] = kv[j+1:]
+			}
+		}
+		r.hist("graph-fuel:ok=" + f["fuel_ok"] + ":no-disabled-mods=" + f["nodis"])
+		if f["fuel_ok"] != "true" || f["agrees"] != "true" {
+			r.violate(Violation{Kind: "correspondence", Key: "C19:graph-fuel-inadequate",
+				What:  "the explicit-exhaustion run of the graph model does not succeed at graphFuel (or disagrees with deepGraph): " + rep,
+				Input: c19Replay{Program: cs.Src, Note: "found in " + cs.Name}, Broken: "hypothesis of Props.C19.graph_fuel_adequate"})
+		}
+	}
 	verdict, real, model := c19GraphTie(c, plain, base.Ast, base.Graph)
 	switch {
 	case verdict == "equal-with-disabled":
